@@ -277,6 +277,13 @@ Qed.
 Theorem no_spurious_failure sched t : pcs (crun true true cinit sched) t <> PFailed.
 Proof. apply run_nofail. intros x. cbn. discriminate. Qed.
 
+(* ... and the code as it is does wait (re-proved from the regenerated constant) *)
+Lemma code_waits : code_waits_ready = true.
+Proof. vm_compute. reflexivity. Qed.
+
+Theorem code_no_spurious_failure sched t : pcs (crun true code_waits_ready cinit sched) t <> PFailed.
+Proof. rewrite code_waits. apply no_spurious_failure. Qed.
+
 (* the pinned code outside the recorded class: when the schedule never lets a send_request
    overtake the connection task's readiness signal, no request is failed *)
 Definition FailRaced (c : conn) : Prop := forall t, pcs c t = PFailed -> raced c = true.
